@@ -918,4 +918,264 @@ Section Proofs.
     destruct (finish_all _ _ _); simpl; auto.
     split; auto. intros k. symmetry. apply apply_bal_state.
   Qed.
+
+  (* ================= every schedule of the workers ================= *)
+  Notation pstate := (pstate K V Out).
+  Notation pstep := (pstep K V Out keqb).
+  Notation prun := (prun K V Out keqb).
+  Notation p_init := (p_init K V Out).
+  Notation rget := (rget K V Out).
+  Notation p_has_error := (p_has_error K V Out).
+  Notation p_done := (p_done K V Out).
+  Notation collect := (collect K V Out).
+  Notation p_outcome := (p_outcome K V Out).
+  Notation p_cursor := (p_cursor K V Out).
+  Notation p_hold := (p_hold K V Out).
+  Notation p_res := (p_res K V Out).
+
+  Definition pinv (pre : view) (B : bal) (ts : list tx) (s : pstate) : Prop :=
+    (p_cursor s <= length ts)%nat
+    /\ (forall i r, In (i, r) (p_res s) ->
+          exists t, nth_error ts i = Some t /\ r = worker_exec pre B i t)
+    /\ (forall i, (i < p_cursor s)%nat ->
+          (exists w, In (w, i) (p_hold s)) \/ (exists r, In (i, r) (p_res s)))
+    /\ (forall w i, In (w, i) (p_hold s) -> (i < p_cursor s)%nat)
+    /\ (forall w i, In (w, i) (p_hold s) -> hget w (p_hold s) = Some i).
+
+  Lemma hget_In w l i : hget w l = Some i -> In (w, i) l.
+  Proof.
+    induction l as [|[w0 j] r IH]; simpl; [discriminate|].
+    destruct (Nat.eqb w0 w) eqn:E.
+    - apply Nat.eqb_eq in E. intros H. inversion H; subst. auto.
+    - intros H. right. auto.
+  Qed.
+  Lemma in_hdel w l w' i : In (w', i) (hdel w l) <-> In (w', i) l /\ w' <> w.
+  Proof.
+    unfold hdel. rewrite filter_In. simpl. rewrite negb_true_iff, Nat.eqb_neq. tauto.
+  Qed.
+  Lemma hget_hdel_other w l w' : w' <> w -> hget w' (hdel w l) = hget w' l.
+  Proof.
+    intros N. induction l as [|[w0 j] r IH]; simpl; auto.
+    destruct (Nat.eqb w0 w) eqn:E; simpl.
+    - apply Nat.eqb_eq in E. subst w0.
+      assert (Nat.eqb w w' = false) as -> by (apply Nat.eqb_neq; congruence). exact IH.
+    - destruct (Nat.eqb w0 w'); auto.
+  Qed.
+
+  Lemma pinv_init pre B ts : pinv pre B ts p_init.
+  Proof.
+    unfold pinv, Parallel.p_init; simpl. repeat split; try tauto; try lia.
+  Qed.
+
+  Lemma pinv_step pre B ts s e s' :
+    pinv pre B ts s -> pstep pre B ts s e = Some s' -> pinv pre B ts s'.
+  Proof.
+    intros (I1 & I2 & I3 & I4 & I5) H. destruct e as [w [|]]; unfold Parallel.pstep in H.
+    - (* Claim *)
+      destruct (hget w (p_hold s)) eqn:Hw; [discriminate|].
+      destruct (Nat.ltb (p_cursor s) (length ts)) eqn:L; [|discriminate].
+      apply Nat.ltb_lt in L. inversion H; subst; clear H. unfold pinv; simpl.
+      split; [lia|]. split; [exact I2|]. split; [|split].
+      + intros i Hi. destruct (Nat.eq_dec i (p_cursor s)) as [->|Ne].
+        * left. exists w. auto.
+        * destruct (I3 i) as [[w' Hin]|Hr]; [lia| |]; [left; exists w'; auto | right; exact Hr].
+      + intros w' i [Hin|Hin]; [inversion Hin; subst; lia|]. apply I4 in Hin. lia.
+      + intros w' i [Hin|Hin].
+        * inversion Hin; subst. rewrite Nat.eqb_refl. reflexivity.
+        * pose proof (I5 _ _ Hin) as G.
+          destruct (Nat.eqb w w') eqn:E; [|exact G].
+          apply Nat.eqb_eq in E. subst w'. congruence.
+    - (* Finish *)
+      destruct (hget w (p_hold s)) as [i|] eqn:Hw; [|discriminate].
+      destruct (nth_error ts i) as [t|] eqn:Ht; [|discriminate].
+      inversion H; subst; clear H. unfold pinv; simpl.
+      split; [exact I1|]. split; [|split; [|split]].
+      + intros j r [Hin|Hin]; [inversion Hin; subst; eauto|]. apply I2; auto.
+      + intros j Hj. destruct (I3 j Hj) as [[w' Hin]|[r Hr]].
+        * destruct (Nat.eq_dec w' w) as [->|Ne].
+          -- apply I5 in Hin. rewrite Hw in Hin. inversion Hin; subst. right. eauto.
+          -- left. exists w'. apply in_hdel. auto.
+        * right. exists r. auto.
+      + intros w' j Hin. apply in_hdel in Hin. destruct Hin as [Hin _]. eapply I4; eauto.
+      + intros w' j Hin. apply in_hdel in Hin. destruct Hin as [Hin Ne].
+        rewrite hget_hdel_other by assumption. eapply I5; eauto.
+  Qed.
+
+  Lemma pinv_run pre B ts h : forall s s',
+    pinv pre B ts s -> prun pre B ts s h = Some s' -> pinv pre B ts s'.
+  Proof.
+    induction h as [|e h IH]; simpl; intros s s' I H.
+    - inversion H; subst; auto.
+    - destruct (pstep pre B ts s e) as [s1|] eqn:E; [|discriminate].
+      eapply IH; [eapply pinv_step; eauto | exact H].
+  Qed.
+
+  Lemma rget_In i l r : rget i l = Some r -> In (i, r) l.
+  Proof.
+    induction l as [|[j r0] l' IH]; simpl; [discriminate|].
+    destruct (Nat.eqb j i) eqn:E.
+    - apply Nat.eqb_eq in E. intros H. inversion H; subst. auto.
+    - intros H. right. auto.
+  Qed.
+  Lemma In_rget i l r : In (i, r) l -> exists r', rget i l = Some r'.
+  Proof.
+    induction l as [|[j r0] l' IH]; simpl; [tauto|].
+    intros [H|H].
+    - inversion H; subst. rewrite Nat.eqb_refl. eauto.
+    - destruct (Nat.eqb j i); eauto.
+  Qed.
+
+  Lemma collect_spec pre B res ts : forall i,
+    (forall j t, nth_error ts j = Some t ->
+       rget (i + j) res = Some (worker_exec pre B (i + j) t)) ->
+    collect res ts i = wexec_all pre B ts i.
+  Proof.
+    induction ts as [|t r IH]; intros i H; [reflexivity|].
+    cbn [Parallel.collect wexec_all].
+    pose proof (H 0%nat t eq_refl) as H0. rewrite Nat.add_0_r in H0. rewrite H0.
+    rewrite (IH (S i)).
+    - destruct (worker_exec pre B i t); [|reflexivity].
+      destruct (wexec_all pre B r (S i)); reflexivity.
+    - intros j t' Hj. specialize (H (S j) t' Hj). rewrite Nat.add_succ_r in H. exact H.
+  Qed.
+  Lemma wexec_none pre B ts : forall i j t,
+    nth_error ts j = Some t -> worker_exec pre B (i + j) t = None -> wexec_all pre B ts i = None.
+  Proof.
+    induction ts as [|t0 r IH]; intros i j t Hn Hw; [destruct j; discriminate|].
+    cbn [wexec_all]. destruct j as [|j]; simpl in Hn.
+    - inversion Hn; subst. rewrite Nat.add_0_r in Hw. rewrite Hw. reflexivity.
+    - rewrite (IH (S i) j t Hn) by (rewrite Nat.add_succ_r in Hw; exact Hw).
+      destruct (worker_exec pre B i t0); reflexivity.
+  Qed.
+
+  (* ---- whatever the interleaving of any number of workers, executeTransactionsParallel
+          returns the same thing ---- *)
+  Theorem schedule_independent pre B ts h s :
+    prun pre B ts p_init h = Some s -> p_done (length ts) s = true ->
+    p_outcome ts s = wexec_all pre B ts 0.
+  Proof.
+    intros R Dn. pose proof (pinv_run pre B ts h _ _ (pinv_init pre B ts) R) as (I1 & I2 & I3 & I4 & I5).
+    unfold Parallel.p_done in Dn. destruct (p_hold s) eqn:Hh; [|discriminate].
+    unfold Parallel.p_outcome. destruct (p_has_error s) eqn:Er.
+    - unfold Parallel.p_has_error in Er. apply existsb_exists in Er.
+      destruct Er as [[i [e|]] [Hin Hn]]; [discriminate|].
+      destruct (I2 _ _ Hin) as [t [Ht Hw]]. symmetry.
+      apply (wexec_none pre B ts 0 i t Ht). simpl. auto.
+    - rewrite orb_false_r in Dn. apply Nat.leb_le in Dn.
+      apply collect_spec. intros j t Hj. simpl.
+      assert (Lj : (j < length ts)%nat) by (apply nth_error_Some; congruence).
+      destruct (I3 j) as [[w Hin]|[r Hr]]; [lia | destruct Hin |].
+      destruct (In_rget _ _ _ Hr) as [r' Hr']. rewrite Hr'.
+      apply rget_In in Hr'. destruct (I2 _ _ Hr') as [t' [Ht' ->]]. congruence.
+  Qed.
+
+  (* ================= validation ================= *)
+  Variable Hbal : bal -> D.
+  Variable Hrec : list (receipt Out) -> D.
+  Variable Hreq : Out -> D.
+  Variable Hroot : view -> D.
+  Hypothesis deqb_spec : forall a b, deqb a b = true <-> a = b.
+  Hypothesis Hbal_inj : forall a b, Hbal a = Hbal b -> a = b.
+  Hypothesis Hroot_ext : forall s s' : view, (forall k, s k = s' k) -> Hroot s = Hroot s'.
+
+  Notation validate_state := (validate_state K V Out D keqb kltb deqb Hbal Hrec Hreq Hroot).
+  Notation validate_body := (validate_body K V D keqb kltb deqb Hbal).
+  Notation verdict_seq := (verdict_seq K V Out D keqb kltb veqb deqb Hbal Hrec Hreq Hroot).
+  Notation verdict_par := (verdict_par K V Out D keqb kltb veqb deqb Hbal Hrec Hreq Hroot).
+  Notation r_bal := (r_bal K V Out).
+
+  Lemma validate_state_0 m h res st :
+    validate_state m h (res, st) = 0 ->
+    Hbal (to_encoding (r_bal res)) = h_bal D h.
+  Proof.
+    unfold Parallel.validate_state.
+    destruct (negb (h_gas D h =? r_gas K V Out res)); [discriminate|].
+    destruct (negb (deqb (Hrec _) _)); [discriminate|].
+    destruct (negb (deqb (Hreq _) _)); [discriminate|].
+    destruct (deqb (Hbal (to_encoding (r_bal res))) (h_bal D h)) eqn:E; [|discriminate].
+    intros _. apply deqb_spec. exact E.
+  Qed.
+
+  Lemma validate_state_root m h res st st' :
+    (forall k, st k = st' k) -> validate_state m h (res, st) = validate_state m h (res, st').
+  Proof. intros E. unfold Parallel.validate_state. rewrite (Hroot_ext _ _ E). reflexivity. Qed.
+
+  Lemma fin_txs_cb ces : forall idx a a',
+    fin_txs ces idx a = Some a' ->
+    forall tr, ces = ces_of tr -> a_cb a' = merge_trace (a_cb a) idx tr.
+  Proof.
+    induction ces as [|c r IH]; intros idx a a' H tr E.
+    - destruct tr; [|discriminate]. inversion H; subst. reflexivity.
+    - destruct tr as [|[v e] tr']; [discriminate|]. simpl in E. inversion E; subst. clear E.
+      cbn [fin_txs fst snd] in H. destruct (negb (e_ok e)); [discriminate|].
+      destruct (acct_step' a idx (net v (e_writes e)) e) as [a1|] eqn:S1; [|discriminate].
+      rewrite (IH _ _ _ H tr' eq_refl). cbn [merge_trace fst snd]. f_equal.
+      unfold acct_step' in S1. destruct (negb _); [discriminate|].
+      destruct (gp_charge _ _ _ _); [|discriminate]. inversion S1; subst. reflexivity.
+  Qed.
+
+  Lemma finish_all_bal gl ve0 mid vep res :
+    finish_all gl (N.of_nat (length mid)) (ces_of (ve0 :: mid ++ [vep])) = Some res ->
+    r_bal res = merge_trace cb_empty 0 (ve0 :: mid ++ [vep]).
+  Proof.
+    cbn [ces_of map]. fold (ces_of (mid ++ [vep])). rewrite ces_of_app. cbn [ces_of map].
+    rewrite finish_all_parts. unfold finish. cbn [fst snd].
+    destruct (fin_txs (ces_of mid) 1 _) as [a|] eqn:F; [|discriminate].
+    destruct (negb (e_ok (snd vep))); [discriminate|]. intros H. inversion H; subst; clear H.
+    cbn [Parallel.r_bal merge_trace]. rewrite merge_trace_app. cbn [merge_trace].
+    rewrite (fin_txs_cb _ _ _ _ F mid eq_refl). cbn [Parallel.a_cb].
+    rewrite !tx_cbal_mk. do 2 f_equal. lia.
+  Qed.
+
+  Lemma par_process_rebuilt pre b B res st :
+    Forall gas_local (b_txs b) ->
+    par_process pre b B (wexec_all pre B (b_txs b) 0) = Some (res, st) ->
+    to_encoding (r_bal res) = rebuilt pre b B.
+  Proof.
+    intros G. rewrite (par_process_fin pre b B G).
+    destruct (finish_all _ _ _) as [r|] eqn:F; [|discriminate]. intros H. inversion H; subst.
+    unfold rebuilt. f_equal. rewrite phases_par_trace in *.
+    apply (finish_all_bal (b_gaslimit b)).
+    rewrite par_trace_length. exact F.
+  Qed.
+  Lemma seq_process_bal pre b res st :
+    seq_process pre b = Some (res, st) -> to_encoding (r_bal res) = bal_of_seq pre b.
+  Proof.
+    rewrite seq_process_fin.
+    destruct (finish_all _ _ _) as [r|] eqn:F; [|discriminate]. intros H. inversion H; subst.
+    unfold bal_of_seq. f_equal. rewrite phases_seq_trace in *.
+    apply (finish_all_bal (b_gaslimit b)).
+    rewrite seq_trace_length. exact F.
+  Qed.
+
+  (* ---- T4: a block whose attached access list is not the one sequential execution
+          produces is rejected — whatever the header says ---- *)
+  Theorem wrong_bal_rejected pre b h B :
+    Forall tx_ext (phases b) -> Forall gas_local (b_txs b) ->
+    B <> bal_of_seq pre b ->
+    verdict_par pre b h B (wexec_all pre B (b_txs b) 0) <> 0.
+  Proof.
+    intros Hext G Ne Hv. apply Ne. unfold Parallel.verdict_par in Hv.
+    destruct (validate_body (n_of b + 1) h B) eqn:VB; cbn [negb] in Hv; [|discriminate].
+    unfold Parallel.validate_body in VB. apply andb_true_iff in VB. destruct VB as [VB _].
+    apply deqb_spec in VB.
+    destruct (par_process pre b B _) as [[res st]|] eqn:P; [|discriminate].
+    apply validate_state_0 in Hv.
+    rewrite (par_process_rebuilt pre b B res st G P) in Hv.
+    apply rebuilt_fixpoint_unique; auto. apply Hbal_inj. congruence.
+  Qed.
+
+  (* ---- with the true list attached, parallel validation returns the verdict of
+          sequential validation (class by class), once ValidateBody has passed ---- *)
+  Theorem verdict_par_true pre b h :
+    Forall tx_ext (phases b) -> Forall gas_local (b_txs b) ->
+    verdict_par pre b h (bal_of_seq pre b) (wexec_all pre (bal_of_seq pre b) (b_txs b) 0)
+    = if validate_body (n_of b + 1) h (bal_of_seq pre b) then verdict_seq pre b h else 1.
+  Proof.
+    intros Hext G. unfold Parallel.verdict_par, Parallel.verdict_seq.
+    destruct (validate_body _ _ _); cbn [negb]; [|reflexivity].
+    pose proof (par_eq_seq_workers pre b Hext G) as S. unfold same_outcome in S.
+    destruct (seq_process pre b) as [[r st]|], (par_process pre b _ _) as [[r' st']|]; try tauto.
+    destruct S as [-> E]. symmetry. apply validate_state_root. exact E.
+  Qed.
 End Proofs.
